@@ -167,6 +167,8 @@ def step (s : DState) (toks : List String) : DState × String :=
   | ["toggle", _] => if s.world then (s, "ok") else bad s
   | ["epupdate", _, _] => if s.world then (s, "ok") else bad s
   | ["epnew", _, _] => if s.world then (s, "ok") else bad s
+  | ["epcache", _, _] => if s.world then (s, "ok") else bad s
+  | ["addrupdate", _] => if s.world then (s, "ok") else bad s
   | ["epdelete", _] => if s.world then (s, "ok") else bad s
   | ["epdelshard", _] => if s.world then (s, "ok") else bad s
   | ["epprune", _] => if s.world then (s, "ok") else bad s
